@@ -7,13 +7,14 @@ import Driver.Util
   line protocol of the `opt` engine (property C18); every line is a list of `key=value` words,
   strings hex-encoded ("-" = empty string), an absent key = "not given".
 
-  `pdshmodel opt model <d4><d5><atoi><dopt>`
-      pers=dsh|pdcp|rpdcp luser=HEX lmax=N prog=HEX avail=HEX,HEX,.. env=NAMEHEX:VALHEX,.. argv=HEX,HEX,..
+  `pdshmodel opt model <d4><d5><atoi><dopt><wuser><early>`
+      pers=dsh|pdcp|rpdcp luser=HEX lmax=N prog=HEX avail=HEX,HEX,.. [modopts=HEX] env=NAMEHEX:VALHEX,.. argv=HEX,HEX,..
         -> "exit N"
          | "ok <fanout> <ctmo> <utmo> <ruser> <rcmd|~> <misc|~> <path> q=<0|1> S=<0|1> k=<0|1> term=<0|1> mw=<A|B>"
   `pdshmodel opt spec`
       pers=.. luser= lmax= prog= avail= dfr=HEX(default rcmd) st=0|1
       cf= ef= ct= et= cu= eu= cl= cR= eR= cM= eM= ce= ee=       (texts per setting: c* command line, e* environment)
+      wt=HEX,.. wu=HEX,.. wm=0|1    (per-host transports / users given as prefixes of -w words; a malformed prefix)
       obs=rej:<diag>  |  obs=hang  |  obs=acc:<fanout>:<ctmo>:<utmo>:<ruser>:<rcmd>:<path>   [mw=HEX]
         -> "ok" | space-separated violated clauses
 -/
@@ -48,7 +49,8 @@ def parseDefaults (ws : List String) : Option Defaults := do
   let lmax ← (kv ws "lmax").bind String.toNat?
   let prog ← kvHex ws "prog"
   let avail ← hexList ((kv ws "avail").getD "")
-  pure { luser := luser, loginMax := lmax, progPath := prog, rcmdModules := avail }
+  let mo := (kvHex ws "modopts").getD []
+  pure { luser := luser, loginMax := lmax, progPath := prog, rcmdModules := avail, modOpts := mo }
 
 def b01 (b : Bool) : String := if b then "1" else "0"
 
@@ -98,7 +100,9 @@ def stepSpec (line : String) : String :=
         dfltFanout := DFLT_FANOUT, dfltCtmo := CONNECT_TIMEOUT, dfltUtmo := 0,
         dfltUser := d.luser, loginMax := d.loginMax, avail := d.rcmdModules,
         dfltRcmd := kvHex ws "dfr", dfltPath := d.progPath,
-        structOk := (kv ws "st") ≠ some "0" }
+        structOk := (kv ws "st") ≠ some "0",
+        wTypes := ((kv ws "wt").bind hexList).getD [], wUsers := ((kv ws "wu").bind hexList).getD [],
+        wMalformed := (kv ws "wm") = some "1" }
     let a := match (kv ws "obs").bind parseObs with
       | some o => some (Spec.judge cfg o)
       | none => none
@@ -117,10 +121,10 @@ def main (args : List String) : IO UInt32 := do
   match args with
   | ["model", bits] =>
     match bits.toList with
-    | [a, b, c, e] =>
-      let fx : Fixes := ⟨a = '1', b = '1', c = '1', e = '1'⟩
+    | [a, b, c, e, f, g] =>
+      let fx : Fixes := ⟨a = '1', b = '1', c = '1', e = '1', f = '1', g = '1'⟩
       Driver.forLines stdin () (fun _ l => ((), stepModel fx l)); return 0
-    | _ => IO.eprintln "usage: pdshmodel opt model <d4 d5 atoi dopt>"; return 2
+    | _ => IO.eprintln "usage: pdshmodel opt model <d4 d5 atoi dopt wuser early>"; return 2
   | ["spec"] => Driver.forLines stdin () (fun _ l => ((), stepSpec l)); return 0
   | _ => IO.eprintln "usage: pdshmodel opt model <bits>|spec"; return 2
 
